@@ -28,7 +28,7 @@ CHECKS.update({
   "All pairs of the IOS spaces acl (block structured, with/without IOS-XE sequence numbers), rt, vrf, intf, crypto, corpus and a chain of approves; script executed on the IOS model; semantic view compares ACLs as sequences of maximal same-action runs. Exhaustive inside the alphabets.",
   "Trusts the reference IOS model; 'match address' of IOS crypto maps is unmanaged (as the tool documents).",
   "DESIGN.md 4 C02"),
- "C08": ("model_checking", "approvex/cisco",
+ "C08": ("model_checking", "approvex/cisco+panos",
   "explicit-state exploration: every command of every script of the C01/C02 spaces (and chain states) is executed at its position on a device model that enforces referential integrity, duplicate-entry, line-number and configuration-mode rules",
   "The device models reject exactly the classes of commands the statement lists; each script line of each enumerated pair is executed in order and the first rejection is a violation. ASA and IOS now; PAN-OS and NSX are added with their models.",
   "Trusts that the models are not stricter than the devices in other respects (checked by executing all expected outputs of the repository's tests: none is rejected).",
@@ -46,6 +46,14 @@ CHECKS.update({
   "All pairs of route subsets, all pairs of FORWARD chains over a rule alphabet that covers every normalisation rule of the statement (device in Netspoc and in iptables-save spelling), all pairs of table/chain/policy structures and the linux corpus product; the route commands run one by one on the kernel model, the restore file is loaded with iptables-restore semantics. Exhaustive inside the alphabets.",
   "Kernel model is lenient for several next hops to one destination (see DESIGN 3.2); scp of the startup files is outside (short-circuited by the tool under simulation).",
   "DESIGN.md 4 C05"),
+})
+
+CHECKS.update({
+ "C03": ("model_checking", "approvex/panos",
+  "explicit-state exploration: all pairs of vsys configurations over rule/object alphabets + corpus product + chain; real planner as transition; independent PAN-OS candidate-config model executes set/edit/delete/move; oracle = ordered rules with objects expanded by value + silent second compare",
+  "All pairs of rule sequences, of group member sets with naming/value variants, of service variants and of two-vsys structures, the pan-os corpus product and a chain of approves; every XML-API command is executed on the model and the resulting rulebase is compared by value with the target. Exhaustive inside the alphabets.",
+  "Trusts the PAN-OS model (set merges, edit replaces, delete refuses referenced objects, move needs its destination), validated on the 34 executable DEVICE/NETSPOC/OUTPUT triples of pan-os.t (one triple documents finding F-C08-panos-service-group-set).",
+  "DESIGN.md 4 C03"),
 })
 
 NOT_YET = "check not built yet in this round (design in DESIGN.md section 4); no technique switch intended"
